@@ -409,7 +409,8 @@ Operate(vs0, op, m, cnt, reg, keys) ==
                   rep == li[1]
                   ip == InputPos(rep, li[2])
                   v2 == SetText(v1, rep, r1, r2 + 1)
-              IN [v2 EXCEPT !.row = r1 + ip[1] - 1, !.off = ip[2], !.ok = TRUE]
+              IN [v2 EXCEPT !.row = r1 + ip[1] - 1, !.off = ip[2], !.ok = TRUE,
+                             !.top = Max2(Min2(vs.top, r1), r1 + ip[1] - 1 - vs.rows + 1)]
          [] op \in {"g~", "gu", "gU"} ->
               LET mapped == CaseMap(text, op)
                   v2 == IF ln THEN SetText(vs, mapped, r1, r2 + 1)
@@ -443,7 +444,7 @@ Insert(vs, k, keys) ==      \* i a I A o O
         v0 == IF open /\ NR(vs) = 0 THEN SetText(vs, <<NL>>, 0, 0) ELSE vs
         beg == rowN - ip[1] + 1
         v1 == SetText(v0, rep, beg, beg + (IF open THEN 0 ELSE 1))
-    IN [v1 EXCEPT !.row = rowN, !.off = ip[2], !.ok = TRUE]
+    IN [v1 EXCEPT !.row = rowN, !.off = ip[2], !.ok = TRUE, !.top = Max2(vs.top, rowN - vs.rows + 1)]     \* vi_nextline()
 
 Put(vs, k, cnt0, reg) ==
     LET cnt == Max2(1, cnt0)
@@ -497,7 +498,10 @@ WFix(vs) ==      \* vi_wfix() and the column bookkeeping after a command that re
         row == IF vs.row < 0 \/ vs.row >= n THEN (IF n > 0 THEN n - 1 ELSE 0) ELSE vs.row
         l == FL(vs, row)
         off == Noeol(l, vs.off)
-    IN [vs EXCEPT !.row = row, !.off = off]
+        h == vs.rows \div 2
+        t1 == IF vs.top > row THEN (IF vs.top - h > row THEN Max2(0, row - h) ELSE row) ELSE vs.top
+        t2 == IF t1 + vs.rows <= row THEN (IF t1 + vs.rows + h <= row THEN row - h ELSE row - vs.rows + 1) ELSE t1
+    IN [vs EXCEPT !.row = row, !.off = off, !.top = t2]
 ViCmd(vs0, c) ==
     LET vs == [vs0 EXCEPT !.ok = TRUE, !.ed.out = <<>>,
                           !.ed.lb.aux = IF c.k = "mot" THEN vs0.ed.lb.aux ELSE vs0.off]     \* lbuf_mark(xb, '^', xrow, xoff)
